@@ -124,11 +124,11 @@ type c08ChanPair struct {
 }
 
 type c08ClusterCfg struct {
-	amtAB, amtBC   btcutil.Amount // per side
-	dustA, dustB   btcutil.Amount // dust limit of the initiator / the other side
-	reserve        btcutil.Amount
-	fundSeed       [32]byte
-	poolWorkers    int
+	amtAB, amtBC btcutil.Amount // per side
+	dustA, dustB btcutil.Amount // dust limit of the initiator / the other side
+	reserve      btcutil.Amount
+	fundSeed     [32]byte
+	poolWorkers  int
 	// max_accepted_htlcs of both ends, per channel
 	maxAcceptedAB, maxAcceptedBC uint16
 }
